@@ -59,10 +59,13 @@ Footers == <<
   <<Alt(-16200, -9000, <<"M", 10, 3, 6>>, 86340, <<"M", 2, 3, 6>>, 86340, FALSE), 2>>,
   <<Alt(3600, 5400, <<"M", 5, 1, 3>>, 3661, <<"M", 8, 5, 5>>, 7200, FALSE), 2>>,
   <<Alt(0, 3600, <<"M", 3, 5, 0>>, 3600, <<"M", 10, 5, 0>>, 7200, TRUE), 2>>,
-  <<Alt(34200, 37800, <<"M", 10, 1, 0>>, 7200, <<"M", 4, 1, 0>>, 10800, TRUE), 2>> >>
+  <<Alt(34200, 37800, <<"M", 10, 1, 0>>, 7200, <<"M", 4, 1, 0>>, 10800, TRUE), 2>>,
+  \* the last <weekday> of February: in some leap years it is the 29th
+  <<Alt(-10800, -7200, <<"M", 10, 3, 0>>, 0, <<"M", 2, 5, 0>>, 0, FALSE), 2>>,
+  <<Alt(7200, 10800, <<"M", 2, 5, 4>>, 10800, <<"M", 10, 5, 0>>, 14400, TRUE), 2>> >>
 
 Thorough == IOEnv.TIER = "thorough"
-Years == {2023, 2024, 2037, 2038, 2100, 2400, 1999} \cup (IF Thorough THEN {1970, 1996, 2000, 2025, 2026, 2027, 2028, 2029, 2030, 2399} ELSE {})
+Years == {2023, 2024, 2032, 2037, 2038, 2100, 2400, 1999}       \* 29 February: a Thursday in 2024, a Sunday in 2032 \cup (IF Thorough THEN {1970, 1996, 2000, 2025, 2026, 2027, 2028, 2029, 2030, 2399} ELSE {})
 
 \* thorough tier: every weekday x week of the start month, of the end months, Julian and zero-based days around
 \* 29 February, in both hemispheres (files without transitions: the rule decides every instant)
@@ -129,8 +132,11 @@ SortedInstants(tz) == SetToSortSeq(Instants(tz), TLt)
 LookupCase(tz) ==
   LET ts == SortedInstants(tz) IN
   [op |-> "tz_lookup",
+   \* leaps / ind: leap-second records and standard/wall + UT/local indicator arrays in every data block - data
+   \* the reader has to step over; they do not enter the lookup
    file |-> [ver |-> tz.ver, trans |-> [i \in 1..Len(tz.trans) |-> <<tz.trans[i].t[1], tz.trans[i].t[2], tz.trans[i].idx>>],
-             types |-> tz.types, footer |-> FooterText(tz.footer)],
+             types |-> tz.types, footer |-> FooterText(tz.footer),
+             leaps |-> (Len(tz.trans) + Len(tz.types) + tz.ver) % 4, ind |-> (Len(tz.trans) + tz.ver) % 2 = 0],
    ts |-> ts,
    exp |-> <<[k |-> "ok", offs |-> [i \in 1..Len(ts) |-> LET a == Lookup(tz, ts[i]) IN IF a.any THEN "any" ELSE a.off]]>>]
 
